@@ -42,6 +42,7 @@ void (* vk_on_poll)(void *, unsigned long, int);
 int (* vk_on_deadlock)(void);
 int (* vk_on_connect)(struct vsock *, int, struct vk_connect_answer *);
 int (* vk_on_socket)(void);
+int (* vk_on_bind)(struct vsock *);
 void (* vk_on_close)(struct vsock *);
 void (* vk_on_recv)(struct vsock *, long, int);
 const void * vk_last_recv_buf;
@@ -664,6 +665,15 @@ __wrap_bind(int fd, const struct sockaddr * sa, socklen_t salen)
 	if (vk_sock(fd) == NULL) {
 		errno = EBADF;
 		return (-1);
+	}
+	if (vk_on_bind != NULL) {
+		int e = vk_on_bind(vk_sock(fd));
+
+		if (e != 0) {
+			TR(0xAB, fd, e, "bind(fd=%d) -> -1 errno %d", fd, e);
+			errno = e;
+			return (-1);
+		}
 	}
 	return (0);
 }
